@@ -54,10 +54,10 @@ func Now() Time {
 	return stdtime.Now()
 }
 
-func Since(t Time) Duration                { return Now().Sub(t) }
-func Until(t Time) Duration                { return t.Sub(Now()) }
-func Unix(sec int64, nsec int64) Time      { return stdtime.Unix(sec, nsec) }
-func UnixMilli(msec int64) Time            { return stdtime.UnixMilli(msec) }
+func Since(t Time) Duration                    { return Now().Sub(t) }
+func Until(t Time) Duration                    { return t.Sub(Now()) }
+func Unix(sec int64, nsec int64) Time          { return stdtime.Unix(sec, nsec) }
+func UnixMilli(msec int64) Time                { return stdtime.UnixMilli(msec) }
 func Parse(layout, value string) (Time, error) { return stdtime.Parse(layout, value) }
 func ParseDuration(s string) (Duration, error) { return stdtime.ParseDuration(s) }
 func Date(year int, month Month, day, hour, min, sec, nsec int, loc *Location) Time {
